@@ -102,3 +102,6 @@ package selftest
 
 //@ func orderNoEvent
 //@   order tx_synced_before_append: s.tx.Sync before s.cl.Append
+
+//@ func staleContract
+//@   loop 1 invariant gone: removedVariable >= 0
